@@ -474,6 +474,19 @@ pub fn check_with_ending(v: &View, sc: Option<&Scenario>, quiescent: bool, t_end
                     continue;
                 }
                 stats.inc("complete_before_ending");
+                // a stream h2 itself had already closed cleanly in both directions (state Closed(EndStream), record
+                // kept only because frames or handles were still around) owes its reader the clean end as well
+                let closed_clean_before = v.evs().iter().any(|e| e.t < te && matches!(&e.k, crate::trace::EvK::SnapFact { side, what: "closed_end_stream", v } if *side == recv_side && *v == s.sid as i64));
+                if closed_clean_before {
+                    stats.inc("closed_clean_before_ending");
+                    if head_seen && plan.mode == crate::apps::spec::ReadMode::All && !b.clean_end && b.recv_error.is_some() {
+                        viol.push(Violation::new(
+                            "C07",
+                            "cleanly-closed-stream-reports-connection-error-instead-of-end",
+                            format!("stream tag {} sid {} {}: the stream was closed cleanly in both directions before the ending (t={}), yet its reader got an error instead of end-of-stream (delivered {} of {}, error {:?})", idx, s.sid, if d == 0 { "request" } else { "response" }, te, b.delivered, b.submitted, b.recv_error),
+                        ));
+                    }
+                }
                 // the reader must have been in a position to read: it got the head and reads to the end
                 // (only the content is demanded, not the kind of terminal indication the reader gets afterwards)
                 if head_seen && plan.mode == crate::apps::spec::ReadMode::All && !b.clean_end && b.delivered != b.submitted {
